@@ -183,7 +183,7 @@ pub fn eval_mixed<F: Fn(&StepViolation) -> bool>(scene: &Scene, owns: &F, isolat
 
 /// all sequences of length 1..=depth over the mixed alphabet, auto-closed
 pub fn explore_mixed<F: Fn(&StepViolation) -> bool + Sync>(run: &Run, prop: &str, owns: F, depth: usize, isolated: bool) {
-    explore_alpha(run, prop, "mixed histories", alphabet(), owns, depth, isolated)
+    explore_alpha(run, prop, "mixed histories", alphabet(), owns, depth, isolated, Dst::Distinct)
 }
 
 /// a small alphabet in which clips pushed inside a layer may outlive it and clips pushed before a
@@ -197,22 +197,22 @@ pub fn cross_alphabet() -> Vec<Op> {
         Op::PushClip(PathSpec::poly(&[(0.25, 0.5), (wf - 0.25, 0.0), (wf * 0.5, hf - 0.25)])),
         Op::PopClip,
         Op::PushLayer(1.0, BlendMode::SrcOver),
-        Op::PushLayer(0.5, BlendMode::Src),
+        Op::PushLayer(1.0, BlendMode::Src),
         Op::PopLayer,
         Op::Clear(0x80008080),
         Op::FillRect(0., 0., wf, hf, SrcSpec::Solid(0xff204080), Opts::default()),
     ]
 }
 
-pub fn explore_alpha<F: Fn(&StepViolation) -> bool + Sync>(run: &Run, prop: &str, name: &str, alpha: Vec<Op>, owns: F, depth: usize, isolated: bool) {
+pub fn explore_alpha<F: Fn(&StepViolation) -> bool + Sync>(run: &Run, prop: &str, name: &str, alpha: Vec<Op>, owns: F, depth: usize, isolated: bool, dst: Dst) {
     let na = alpha.len();
     run.bound(name, if name != "mixed histories" { format!("all well-formed call sequences of length 1..={} over {} calls ({}), auto-closed, on {}x{}; step oracle under the model's clip{}", depth, na, alpha.iter().map(|o| o.kind()).collect::<Vec<_>>().join(", "), W, H, if isolated { " + isolated-surface machine" } else { "" }) } else { format!("all well-formed call sequences of length 1..={} (at full length the last call is a draw or a pop) over a mixed alphabet of {} calls (9 draws of different kinds / modes / sources, 8 clip pushes (one empty, one beside the surface, one path under both winding rules, one path covering everything), pop_clip, 4 layer pushes (one with opacity 0), pop_layer, 4 transforms (one singular); the two stacks are independent), auto-closed, on {}x{}; step oracle under the model's clip{}", depth, na, W, H, if isolated { " + isolated-surface machine" } else { "" }) });
     let _ = prop;
     run.par(na * na, |s, l| {
-        fn rec<F: Fn(&StepViolation) -> bool + Sync>(run: &Run, s: usize, l: &mut Local, alpha: &[Op], seq: &mut Vec<Op>, depth: usize, owns: &F, isolated: bool) {
+        fn rec<F: Fn(&StepViolation) -> bool + Sync>(run: &Run, s: usize, l: &mut Local, alpha: &[Op], seq: &mut Vec<Op>, depth: usize, owns: &F, isolated: bool, dst: &Dst) {
             l.states += 1;
             // only sequences ending in a draw or a pop add a new checked transition pattern; all are run
-            let scene = Scene { w: W, h: H, dst: Dst::Distinct, ops: closed(seq) };
+            let scene = Scene { w: W, h: H, dst: dst.clone(), ops: closed(seq) };
             l.transitions += scene.ops.len() as u64;
             l.traces += 1;
             l.evals += 1;
@@ -246,7 +246,7 @@ pub fn explore_alpha<F: Fn(&StepViolation) -> bool + Sync>(run: &Run, prop: &str
                     continue;
                 }
                 seq.push(op.clone());
-                rec(run, s, l, alpha, seq, depth, owns, isolated);
+                rec(run, s, l, alpha, seq, depth, owns, isolated, dst);
                 seq.pop();
             }
         }
@@ -257,12 +257,12 @@ pub fn explore_alpha<F: Fn(&StepViolation) -> bool + Sync>(run: &Run, prop: &str
         }
         seq.push(alpha[i0].clone());
         if i1 == 0 {
-            rec(run, s, l, &alpha, &mut seq, 1, &owns, isolated);
+            rec(run, s, l, &alpha, &mut seq, 1, &owns, isolated, &dst);
         }
         if depth < 2 || !enabled(&seq, &alpha[i1]) {
             return;
         }
         seq.push(alpha[i1].clone());
-        rec(run, s, l, &alpha, &mut seq, depth, &owns, isolated);
+        rec(run, s, l, &alpha, &mut seq, depth, &owns, isolated, &dst);
     });
 }
